@@ -436,6 +436,16 @@ def run_case(ctx, name, params):
         b = [(i.population_id, list(i.vector), list(i.costs), norm(i.costs_signed)) for i in pp.individuals]
         if a != b:
             k = next((j for j in range(min(len(a), len(b))) if a[j] != b[j]), None)
+            if setup["algo"] == "psoga" and k is not None and a[k][:3] == b[k][:3] and list(a[k][3][:-1]) == list(b[k][3][:-1]):
+                # same design, same costs, same signed objectives -- only the feasibility marker differs: PSOGA gives both GA offspring
+                # the features dict of the selected particle (`offspring.features = selected.features`); when the tournament selects
+                # one particle twice, the two offspring share one dict and are evaluated at the same time, so Job.evaluate's
+                # features['feasible'] of one design is read by calc_signed_costs of the other
+                ctx.violation("psoga/shared_features_dict/marker_of_another_design",
+                              "a PSOGA run with %d workers records a design whose feasibility marker differs from the serial run with the same "
+                              "seed (vector, costs and signed objectives agree)" % workers,
+                              wit({"first_difference": k, "serial": a[k], "parallel": b[k]}))
+                return
             ctx.violation("nsga2/parallel_run_differs", "a %s run with %d workers records different designs/costs than the serial "
                           "run with the same seed" % (setup["algo"], workers), wit({"diag": diag, "first_difference": k, "serial": a[k] if k is not None else len(a),
                                                                     "parallel": b[k] if k is not None else len(b)}))
